@@ -13,10 +13,10 @@ namespace Luqum
 def checkMethodOf (cls : String) : Option (String × Bool) :=
   (mroOf cls).findSome? fun c => Generated.checkMethods.find? (fun m => m.1 == c)
 
-/-- `field_name_re = ^\w+$` used with `match` (`$` also matches before a final newline) -/
+/-- `field_name_re = ^\w+$` used with `fullmatch` (since fix F8; with `match`, `$` also matched before a final
+line feed): one or more word characters, nothing else -/
 def validFieldName (n : Str) : Bool :=
-  let core := if n.getLast? == some '\n' then n.dropLast else n
-  !core.isEmpty && core.all isWordChar
+  !n.isEmpty && n.all isWordChar
 
 def isInstance (classes : List String) (t : Tree) : Bool :=
   (mroOf t.className).any (fun c => classes.contains c)
